@@ -368,12 +368,29 @@ class Interp:
             if got != want:
                 raise Violation("render_equals_reference", {"chain": c, "got": got, "want": want, "force": list(self.force)}, self.step)
             self.ev(k, "completed")
+        elif k == "thread":
+            self.ev(k, "marker")  # only meaningful as the first statement of a program (see execute_program)
         else:
             raise RuntimeError(f"unknown statement {st!r}")
 
 
 def execute_program(prog: list) -> dict:
-    """Run one program from the pristine precondition; returns verdict."""
+    """Run one program from the pristine precondition; returns verdict.  A leading ["thread"] marker makes a worker
+    thread (started and joined) the caller of the whole program."""
+    if prog and prog[0] == ["thread"]:
+        import threading
+
+        box = {}
+        t = threading.Thread(target=lambda: box.update(res=_execute_program(prog[1:])), name="sim-caller")
+        t.start()
+        t.join()
+        if "res" not in box:
+            raise RuntimeError("worker thread died without a result")
+        return box["res"]
+    return _execute_program(prog)
+
+
+def _execute_program(prog: list) -> dict:
     from decaylanguage.utils import DescriptorFormat
 
     it = Interp()
@@ -439,9 +456,14 @@ def run_batch(args: dict) -> dict:
     nthashes = set()
     trans = set()
     h = hashlib.sha256()
+    in_thread = 0
     for s in args["seeds"]:
         rng = random.Random(s)
         prog = generate(rng, args.get("cfg"))
+        if rng.random() < 0.08:
+            # the caller is a worker thread (started and joined: no interleaving, only another thread identity)
+            prog = [["thread"], *prog]
+            in_thread += 1
         res = execute_program(prog)
         agg["programs"] += 1
         agg["steps"] += res["steps"]
@@ -462,6 +484,7 @@ def run_batch(args: dict) -> dict:
     agg["nontrivial_hashes"] = sorted(nthashes)
     agg["transitions"] = sorted(trans)
     agg["log_digest"] = h.hexdigest()
+    agg["faults"]["program_run_from_worker_thread"] = in_thread
     return agg
 
 
@@ -504,6 +527,9 @@ def candidates(case: dict):
     if len(progs) > 1:
         for i in range(len(progs)):
             yield {"programs": progs[:i] + progs[i + 1 :]}
+    for pi, prog in enumerate(progs):
+        if prog and prog[0] == ["thread"]:
+            yield {"programs": progs[:pi] + [prog[1:]] + progs[pi + 1 :]}
     for pi, prog in enumerate(progs):
         paths = list(_paths(prog))
         # delete statements, larger subtrees first
